@@ -5,6 +5,7 @@ import (
 	"bytes"
 	"fmt"
 	"math/rand"
+	"os"
 	"regexp"
 	"strings"
 	"time"
@@ -36,7 +37,9 @@ type Session struct {
 	NL         string         `json:"nl"`
 	Banner     []devsim.Token `json:"banner,omitempty"`
 	Cmds       []Cmd          `json:"cmds"`
-	API        string         `json:"api"` // each | multi | channel
+	API        string         `json:"api"`               // each | multi | channel | file
+	FileNL     string         `json:"file_nl,omitempty"` // api file: line ends of the command file
+	FileNoEOL  bool           `json:"file_no_eol,omitempty"`
 	Exact      bool           `json:"exact"`
 	Strip      bool           `json:"strip"`
 	PerOp      bool           `json:"per_op,omitempty"` // options differ from one operation to the next
@@ -183,10 +186,14 @@ func GenSession(r *rand.Rand, tier string) (Session, int) {
 		s.Prompt += " "
 	}
 	s.NL = []string{"\r\n", "\n", "\r\n"}[r.Intn(3)]
-	s.API = []string{"each", "multi", "channel"}[r.Intn(3)]
+	s.API = []string{"each", "multi", "channel", "each", "multi", "channel", "file"}[r.Intn(7)]
+	if s.API == "file" {
+		s.FileNL = []string{"\n", "\r\n"}[r.Intn(2)]
+		s.FileNoEOL = r.Intn(3) == 0
+	}
 	s.Exact = r.Intn(2) == 0
 	s.Strip = r.Intn(3) != 0
-	if s.API != "multi" && r.Intn(3) == 0 {
+	if (s.API == "each" || s.API == "channel") && r.Intn(3) == 0 {
 		// every operation brings its own options: nothing of one operation's options may stick to the next
 		s.PerOp = true
 		s.Exact = false
@@ -290,11 +297,17 @@ func GenSession(r *rand.Rand, tier string) (Session, int) {
 			s.Cmds[i].Text = c.Text[len(c.Text)-1:] // degrade to the 1-byte command
 		}
 	}
+	if !s.Exact && s.API != "file" && len(s.Cmds) >= 2 && r.Intn(6) == 0 {
+		// an empty command on a quiet line (never the first one: the network driver's own level
+		// check types a bare return before the first command): the device just redraws its prompt
+		i := 1 + r.Intn(len(s.Cmds)-1)
+		s.Cmds[i] = Cmd{Text: "", Out: nil}
+	}
 	if s.PerOp {
 		for i, c := range s.Cmds {
 			// exact matching needs a verbatim echo: the device wraps when character WrapEvery+1 is typed
 			verbatim := s.WrapEvery == 0 || len(c.Text) <= s.WrapEvery
-			s.Cmds[i].Exact = verbatim && r.Intn(2) == 0
+			s.Cmds[i].Exact = verbatim && c.Text != "" && r.Intn(2) == 0
 			s.Cmds[i].NoStrip = r.Intn(2) == 0
 		}
 	}
@@ -332,7 +345,7 @@ func RunSession(s Session, h *Hooks) mon.Result {
 	}
 	idx := 0
 	dev.Handler = func(d *devsim.CLI, mode, line string) devsim.Reply {
-		if line == "" {
+		if line == "" && !(idx < len(s.Cmds) && s.Cmds[idx].Text == "" && idx > 0) {
 			return devsim.Reply{}
 		}
 		if idx < len(s.Cmds) && s.Cmds[idx].Text == line {
@@ -437,10 +450,46 @@ func RunSession(s Session, h *Hooks) mon.Result {
 		cmds[i] = c.Text
 	}
 	switch s.API {
-	case "multi":
+	case "multi", "file":
 		var inputs []string
 		var rerr error
-		if nd != nil {
+		path := ""
+		if s.API == "file" {
+			f, ferr := os.CreateTemp("", "verif-c01-*.txt")
+			if ferr != nil {
+				return mon.Result{Verdict: mon.Inconclusive, Detail: "temp file: " + ferr.Error()}
+			}
+			for i, c := range cmds {
+				f.WriteString(c)
+				if i < len(cmds)-1 || !s.FileNoEOL {
+					f.WriteString(s.FileNL)
+				}
+			}
+			f.Close()
+			path = f.Name()
+			defer os.Remove(path)
+		}
+		if path != "" && nd != nil {
+			m, e := nd.SendCommandsFromFile(path, opo...)
+			rerr = e
+			if e == nil {
+				for _, r := range m.Responses {
+					got = append(got, r.Result)
+					inputs = append(inputs, r.Input)
+					keep(r.RawResult)
+				}
+			}
+		} else if path != "" {
+			m, e := gd.SendCommandsFromFile(path, opo...)
+			rerr = e
+			if e == nil {
+				for _, r := range m.Responses {
+					got = append(got, r.Result)
+					inputs = append(inputs, r.Input)
+					keep(r.RawResult)
+				}
+			}
+		} else if nd != nil {
 			m, e := nd.SendCommands(cmds, opo...)
 			rerr = e
 			if e == nil {
@@ -560,6 +609,17 @@ func RunSession(s Session, h *Hooks) mon.Result {
 	}
 	// landmarks
 	obs := map[string]int64{"sessions": 1, "exchanges": int64(len(cmds)), "returned_slices_rechecked_at_end": int64(len(kept))}
+	for _, c := range s.Cmds {
+		if c.Text == "" {
+			obs["empty_commands_on_a_quiet_line"]++
+		}
+	}
+	if s.API == "file" {
+		obs["command_file_sessions"]++
+		if s.FileNL == "\r\n" {
+			obs["command_files_with_crlf"]++
+		}
+	}
 	var tags []string
 	if s.PerOp {
 		obs["per_operation_option_sessions"]++
@@ -647,7 +707,7 @@ func init() {
 		ID:    "C01",
 		Level: "exploration",
 		Rule: "PRNG-generated sessions (1-8 commands, outputs 0-180 lines with CRs, escape sequences, trailing spaces, blank lines; echo verbatim or wrapped; " +
-			"exact/fuzzy; strip on/off, per session or changing from one operation to the next; returned byte slices re-compared at the end of the session; read size 1..8192; search depth from longest line+prompt+2; return char; read delay; segmentation policy). " +
+			"commands from a slice or from a file (LF/CRLF line ends, with/without final newline); occasional empty commands; exact/fuzzy; strip on/off, per session or changing from one operation to the next; returned byte slices re-compared at the end of the session; read size 1..8192; search depth from longest line+prompt+2; return char; read delay; segmentation policy). " +
 			"Non-trivial = >=2 commands and a transport read boundary strictly inside an echo or a prompt. Distinct = distinct descriptor hash.",
 		Assumptions: []string{
 			"device echoes input and answers output+prompt (causal devsim.CLI model)",
